@@ -444,6 +444,7 @@ func (f *follower) observe(defBefore int) {
 	if f.lost {
 		return
 	}
+	f.afterDisk("sleep") // a fault may have fired while bubble time passed
 	if !f.dead {
 		f.refreshSaved(f.rp.C.GetStateDB())
 	}
